@@ -42,7 +42,7 @@ PROPERTIES = {
             K("c03_decode_buffer_cut_long_header", "c03_framing", [MP + "decode_from_buffer"], "11 symbolic bytes, long header announcing <= 2 payload bytes, every cut position", [FMT]),
             K("c03_codec_decode_cut_long_header", "c03_framing", ["<ZmtpCodec as Decoder>::decode"], "11 symbolic bytes, long header announcing <= 2 payload bytes, every cut position", [FMT] + TRC),
             *_enc(0, ("quick", "thorough")), *_enc(3, ("quick", "thorough")),
-            *_enc(255, ("thorough",)), *_enc(256, ("thorough",)),
+            *_enc(255, ("quick", "thorough")), *_enc(256, ("quick", "thorough")),
         ],
         "assumptions": [
             "Kani 0.68 / CBMC 6.11 (cadical) model of rustc MIR and of std is sound",
@@ -130,14 +130,21 @@ PROPERTIES["C02"] = {
     "mirsym": [PROPERTIES["C07"]["mirsym"][2],
                M("c02_sender_frame_limit", "d_c02", "sender_frame_limit",
                  "Socket::send_multipart (public API body) with 0,1,2,3,255,256,300 frames; the pattern-specific inner socket is stubbed right after the Vec -> FrameBatch conversion",
-                 budget={"quick": 120, "thorough": 200}, required_covers=["c02.sender.accepted", "c02.sender.refused"])],
+                 budget={"quick": 120, "thorough": 200}, required_covers=["c02.sender.accepted", "c02.sender.refused"]),
+               M("c02_ingress_mixed_reads", "d_c02", "ingress_mixed_reads",
+                 {"quick": "AnonymousIngressEngine over the real ReadyPipeQueue (sequential channel models): message A (3 frames) and B (2 frames) queued on two pipes in either order, every sequence of 4 calls from {recv, recv_multipart} with RCVTIMEO 0",
+                  "thorough": "sequences of 5 calls"},
+                 params={"quick": {"calls": 4}, "thorough": {"calls": 5}}, budget={"quick": 200, "thorough": 600}, required_covers=["c02.ingress.mixed-read"]),
+               M("c02_ingress_detach", "d_c02", "ingress_detach",
+                 {"quick": "same, every sequence of 4 calls from {recv, recv_multipart, deregister_pipe(0), deregister_pipe(1)}", "thorough": "sequences of 5 calls"},
+                 params={"quick": {"calls": 4}, "thorough": {"calls": 5}}, budget={"quick": 300, "thorough": 1200}, required_covers=["c02.ingress.mixed-read"])],
     "assumptions": MIRSYM_TRUST,
     "manifest": {
         "engine": "mirsym",
         "technique": "symbolic execution of ZmtpEngine::process_data (MIR, z3): one inductive step from a state with L pending frames",
         "text": "Sender side: Socket::send_multipart refuses a message of more than 255 frames with an error before anything is queued and never panics. Receiver side of a connection: whatever bytes arrive while L in {0..255} MORE-frames are pending, the engine only delivers whole messages (MORE on all but the last frame, no COMMAND frame inside), and a message with more frames than FrameBatch supports closes the connection instead of panicking.",
         "design_ref": "DESIGN.md §5 C02",
-        "note": "NOT claimed: frame-by-frame recv()/recv_multipart() mixing on the ingress engines, MORE-flag normalisation in the per-pattern send_multipart bodies, peer attach/detach interleavings (socket level).",
+        "note": "Also: the PULL/SUB ingress engine keeps a partially read message contiguous under every mix of recv()/recv_multipart() and detach events (two peers, bounded call sequences). NOT claimed: the addressed (ROUTER/REQ) ingress engine, MORE-flag normalisation in the per-pattern send_multipart bodies, peer attach/detach interleavings (socket level).",
     },
     "outside": "socket-level ingress (recv/recv_multipart mixing), sender-side limits, attach/detach interleavings",
 }
